@@ -3,6 +3,7 @@ package main
 import (
 	"encoding/json"
 	"fmt"
+	"github.com/nats-io/nkeys"
 	"strings"
 
 	jwt "github.com/nats-io/jwt/v2"
@@ -438,6 +439,45 @@ func runC20(c *Ctx) {
 		if n > 1 {
 			distinct["c"+strings.Join(es, "|")] = true
 		}
+	}
+	// the string form as OTHER encoders write it: JSON allows escapes that Go's own encoder never emits (an escaped
+	// solidus, \u escapes for plain characters, surrogate pairs) - the text of the string is what encoding/json says it is
+	kpAcct, _ := nkeys.CreateAccount()
+	kpUser, _ := nkeys.CreateUser()
+	for _, rawJSON := range []string{
+		`"192.0.2.0\/24,10.0.0.0\/8"`, `"192.0.2.0\u002f24"`, `"\u0031\u0030.0.0.0/8, 10.1.0.0\/16 "`, `"fd00::\/8,FD00::\/8"`,
+		`"net-\ud83d\ude00/8,10.0.0.0/8"`, `"a\tb,c"`, `"\"quoted\",x"`, `"back\\slash"`, `"10.0.0.0/8\u002c10.1.0.0/16"`, `""`, `"\/"`} {
+		var text string
+		if err := json.Unmarshal([]byte(rawJSON), &text); err != nil {
+			panic(err)
+		}
+		var got jwt.CIDRList
+		err := json.Unmarshal([]byte(rawJSON), &got)
+		sp := &ordset{norm: asciiLowerTrim}
+		for _, piece := range strings.Split(text, ",") {
+			sp.add(piece)
+		}
+		c.sum.Evaluations++
+		c.sum.ImplChecks++
+		if err != nil || strings.Join(got, "|") != strings.Join(sp.items, "|") || len(got) != len(sp.items) {
+			c.violation("source-network list: the comma-separated form written with JSON escapes does not decode to the ordered set of its lower-cased trimmed entries",
+				map[string]interface{}{"json_text": rawJSON, "string_value": text, "decoded": append([]string{}, got...), "error": fmt.Sprint(err), "spec": append([]string{}, sp.items...)})
+		}
+		// ... and the same inside a user token
+		uc := jwt.NewUserClaims(mustPub(kpUser))
+		if tok, err := uc.Encode(kpAcct); err == nil {
+			ch := strings.Split(tok, ".")
+			pj, _ := b64.DecodeString(ch[1])
+			pj2 := strings.Replace(string(pj), `"nats":{`, `"nats":{"src":`+rawJSON+`,`, 1)
+			ft := forge(hdrV2, pj2, "v2", &signer{kp: kpAcct})
+			d, err := jwt.DecodeUserClaims(ft.Token)
+			c.sum.ImplChecks++
+			if err != nil || d == nil || strings.Join(d.Src, "|") != strings.Join(sp.items, "|") {
+				c.violation("source-network list: a user token whose src is the comma-separated form written with JSON escapes does not decode to its entries",
+					map[string]interface{}{"json_text": rawJSON, "token": ft.Token, "error": fmt.Sprint(err), "spec": append([]string{}, sp.items...)})
+			}
+		}
+		c.count("cidr_string_form_with_json_escapes")
 	}
 	wt.flush()
 	ws.flush()
